@@ -97,6 +97,15 @@ class H2Run(AsyncRun):
             got = out.get("body") or b""
             own = out.get("tok") == call.tok and out.get("status") == 200 and (got == expect if full else expect.startswith(got))
             elsewhere = any(self._stream_of(call.tok, k) for k in range(1, len(self.net.streams)))
+            # C03 "for every transmission attempt": every COMPLETE transmission of this call's request, on
+            # whatever connection, carried exactly the caller's body (a re-sent request included)
+            want = self._body_of_call(call)
+            reqok = True
+            for rec in self.net.streams:
+                peer = rec.peer
+                for r_ in getattr(peer, "heads", []):
+                    if r_.token == call.tok.encode() and r_.complete and want is not None and r_.body != want:
+                        reqok = False
             self.wire.append(
                 {
                     "e": "RET",
@@ -106,8 +115,22 @@ class H2Run(AsyncRun):
                     "own": bool(own),
                     "blen": len(out.get("body", b"") or b""),
                     "retried": bool(elsewhere),
+                    "reqok": reqok,
                 }
             )
+
+    def _body_of_call(self, call):
+        """The caller's request body as bytes (None if it cannot be told)."""
+        c = call.content
+        if c is None:
+            return b""
+        if isinstance(c, bytes):
+            return c
+        if isinstance(c, tuple) and c and c[0] == "gated":
+            return b"".join(c[1])
+        if isinstance(c, (list, tuple)):
+            return b"".join(c)
+        return None
 
     def _stream_of(self, tok, conn):
         if conn >= len(self.net.streams):
